@@ -1,5 +1,6 @@
 import LyModel.Val.LemmasGeneric
 import LyModel.Val.Union
+import LyModel.Val.LemmasIdent
 /-! Lemmas about the union model (`Val/Union.lean`): the member laws every member type satisfies, `findType`, compare / sort / LYB. -/
 namespace LyModel.Val
 open LyModel
@@ -407,5 +408,100 @@ theorem unlybU_lybU {ms : List Plug} (hwf : ∀ m ∈ ms, MLaws m) (hlen : ms.le
   rw [h2, h3, ofLe_leBytes 4 u.idx, Nat.mod_eq_of_lt (by omega), hget]
   simp only
   rw [(hwf m (List.mem_of_getElem? hget)).lyb_rt _ hst]
+
+/-! ### identityref as a member -/
+
+open Ident in
+/-- a module set whose module names can serve as prefixes of the canonical form: no colon, not empty, and the prefix map of the
+    module-name formats maps every module name to itself -/
+def JsonLike (c : IdCtx) (pmJ : PrefixMap) : Prop :=
+  ∀ df ∈ c.defs, (58 : UInt8) ∉ df.id.mod ∧ df.id.mod ≠ [] ∧ pmJ.table.lookup df.id.mod = some df.id.mod
+
+theorem identMod_canon {i : Ident.Ident} (h : (58 : UInt8) ∉ i.mod) : identMod (Ident.canonId i) = i.mod := by
+  unfold identMod Ident.canonId
+  exact Ident.takeWhile_no_colon h
+
+theorem identName_canon {i : Ident.Ident} (h : (58 : UInt8) ∉ i.mod) : identName (Ident.canonId i) = i.name := by
+  unfold identName Ident.canonId
+  have : (i.mod ++ 58 :: i.name).dropWhile (· != 58) = 58 :: i.name := by
+    apply dropWhile_append_stop
+    · rw [List.all_eq_true]
+      intro x hx
+      simp only [bne_iff_ne, ne_eq]
+      intro he; rw [he] at hx; exact h hx
+    · intro c hc
+      simp only [List.head?_cons, Option.some.injEq] at hc
+      subst hc
+      rfl
+  rw [this]
+  rfl
+
+theorem mstored_idref {ab sm : Bool} {c : Ident.IdCtx} {bases : List Ident.Ident} {pm pmJ : Ident.PrefixMap} {v : Value}
+    (h : MStored (idrefPlugWith ab sm c bases pm pmJ) v) :
+    ∃ hints s i, Ident.storeIdWith ab c bases pm hints s = .ok i ∧ v = .str (Ident.canonId i) := by
+  obtain ⟨hints, s, h⟩ := h
+  simp only [idrefPlugWith] at h
+  cases hs : Ident.storeIdWith ab c bases pm hints s with
+  | error e => rw [hs] at h; cases h
+  | ok i =>
+    rw [hs] at h
+    injection h with h
+    exact ⟨hints, s, i, hs, h.symm⟩
+
+/-- the member laws hold for the identityref plug-in in a module-name format when the sort callback also compares the module (the
+    repaired variant, `fixes/F411.diff`) — for either variant of the base check -/
+theorem idref_mlaws (ab : Bool) (c : Ident.IdCtx) (hwf : c.WF) (bases : List Ident.Ident) (pmJ : Ident.PrefixMap) (hj : JsonLike c pmJ) :
+    MLaws (idrefPlugWith ab true c bases pmJ pmJ) := by
+  have key : ∀ {hints s i}, Ident.storeIdWith ab c bases pmJ hints s = .ok i →
+      (58 : UInt8) ∉ i.mod ∧ Ident.storeIdWith ab c bases pmJ Generated.LYD_HINT_DATA (Ident.canonId i) = .ok i := by
+    intro hints s i h
+    obtain ⟨_, _, _, _, ⟨df, hdf, hid⟩, _⟩ := (Ident.storeIdWith_ok_iff hwf ab bases pmJ hints s i).mp h
+    obtain ⟨h1, h2, h3⟩ := hj df hdf
+    rw [hid] at h1 h2 h3
+    refine ⟨h1, ?_⟩
+    rw [Ident.storeIdWith_ok_iff hwf] at h ⊢
+    obtain ⟨_, hne, _, hname, hdef, hder⟩ := h
+    rw [Ident.splitPrefix_canon h1]
+    refine ⟨by decide, ?_, ?_, rfl, hdef, hder⟩
+    · rw [hname]; exact hne
+    · simp only [Ident.resolve]
+      have : i.mod.isEmpty = false := by
+        cases hm : i.mod with
+        | nil => exact absurd hm h2
+        | cons _ _ => rfl
+      rw [this]
+      simpa using h3
+  refine ⟨?_, ?_, ?_, ?_, ?_, ?_⟩
+  · intro v h
+    obtain ⟨hints, s, i, hs, rfl⟩ := mstored_idref h
+    simp only [idrefPlugWith, (key hs).2]
+  · intro a b ha hb
+    obtain ⟨_, _, i, _, rfl⟩ := mstored_idref ha
+    obtain ⟨_, _, j, _, rfl⟩ := mstored_idref hb
+    simp only [idrefPlugWith, beq_iff_eq]
+  · intro a b ha hb
+    obtain ⟨_, _, i, hi, rfl⟩ := mstored_idref ha
+    obtain ⟨_, _, j, hj', rfl⟩ := mstored_idref hb
+    have ci := (key hi).1
+    have cj := (key hj').1
+    simp only [idrefPlugWith, beq_iff_eq, identMod_canon ci, identName_canon ci, identMod_canon cj, identName_canon cj]
+    rw [Ident.sortIdWith_true_zero]
+    constructor
+    · intro h; cases i; cases j; simp only [Ident.Ident.mk.injEq] at h; rw [h.1, h.2]
+    · intro h; have := Ident.canonId_injective ci cj h; rw [this]
+  · intro a b ha hb
+    obtain ⟨_, _, i, _, rfl⟩ := mstored_idref ha
+    obtain ⟨_, _, j, _, rfl⟩ := mstored_idref hb
+    simp only [idrefPlugWith]
+    exact Ident.sortIdWith_antisymm _ _ _
+  · intro a b d ha hb hd
+    obtain ⟨_, _, i, _, rfl⟩ := mstored_idref ha
+    obtain ⟨_, _, j, _, rfl⟩ := mstored_idref hb
+    obtain ⟨_, _, k, _, rfl⟩ := mstored_idref hd
+    simp only [idrefPlugWith]
+    exact Ident.sortIdWith_trans _ _ _ _
+  · intro v h
+    obtain ⟨hints, s, i, hs, rfl⟩ := mstored_idref h
+    simp only [idrefPlugWith, (key hs).2]
 
 end LyModel.Val
